@@ -8,15 +8,16 @@ import (
 )
 
 // C15: case forms (see coq/Extract/RunC15.v)
-//   (1 bytes)   parseDVBTime             -> res (Unix seconds)
-//   (2 bytes)   parseDVBDurationSeconds  -> res (nanoseconds)
-//   (3 bytes)   parseDVBDurationMinutes  -> res (nanoseconds)
-//   (4 b)       parseDVBDurationByte     -> n
-//   (5 unix)    writeDVBTime(time.Unix(unix,0).UTC()) -> (bytes n)
-//   (6 ns)      writeDVBDurationSeconds  -> (bytes n)
-//   (7 ns)      writeDVBDurationMinutes  -> (bytes n)
-//   (8 n)       dvbDurationByteRepresentation -> byte
-//   (9 unix)    write, then parse what was written -> (bytes res)
+//
+//	(1 bytes)   parseDVBTime             -> res (Unix seconds)
+//	(2 bytes)   parseDVBDurationSeconds  -> res (nanoseconds)
+//	(3 bytes)   parseDVBDurationMinutes  -> res (nanoseconds)
+//	(4 b)       parseDVBDurationByte     -> n
+//	(5 unix)    writeDVBTime(time.Unix(unix,0).UTC()) -> (bytes n)
+//	(6 ns)      writeDVBDurationSeconds  -> (bytes n)
+//	(7 ns)      writeDVBDurationMinutes  -> (bytes n)
+//	(8 n)       dvbDurationByteRepresentation -> byte
+//	(9 unix)    write, then parse what was written -> (bytes res)
 type c15 struct{}
 
 func init() { props["C15"] = c15{} }
@@ -154,11 +155,7 @@ func (c15) Gen(r *Rng, tier string, emit func(string, Tok)) {
 		bs := c15TimeBytes(day0, 0, 0, 0)
 		base := int64(day0-c15MJDUnix) * 86400
 		bad := 0
-		step := 1
-		if !thorough {
-			step = 5 // every 5th word in quick (3.3 million), all 16.7 million in thorough
-		}
-		for w := 0; w < 1<<24; w += step {
+		for w := 0; w < 1<<24; w++ {
 			bs[2], bs[3], bs[4] = byte(w>>16), byte(w>>8), byte(w)
 			t, err := astits.VerifParseDVBTime(bs)
 			want := base + c15Digits(bs[2])*3600 + c15Digits(bs[3])*60 + c15Digits(bs[4])
@@ -169,11 +166,7 @@ func (c15) Gen(r *Rng, tier string, emit func(string, Tok)) {
 				bad++
 			}
 		}
-		if step == 1 {
-			sweep("Go side: parseDVBTime on all 2^24 raw time words against the digit-wise definition")
-		} else {
-			note("Go side: parseDVBTime on every 5th of the 2^24 raw time words against the digit-wise definition, %d failures", bad)
-		}
+		sweep("Go side: parseDVBTime on all 2^24 raw time words against the digit-wise definition")
 	}
 	// truncated and over-long inputs
 	for n := 0; n < 8; n++ {
@@ -225,7 +218,7 @@ func (c15) Gen(r *Rng, tier string, emit func(string, Tok)) {
 			}
 		}
 		sweep("Go side: parseDVBDurationSeconds on all 10^6 BCD digit strings against hh*3600+mm*60+ss")
-		if thorough {
+		{
 			bs := make([]byte, 3)
 			for w := 0; w < 1<<24; w++ {
 				bs[0], bs[1], bs[2] = byte(w>>16), byte(w>>8), byte(w)
